@@ -135,7 +135,11 @@ func (e *Engine) enabled(st *State) []option {
 	nonSleep := len(opts)
 	// timers
 	for i, tm := range st.Timers {
-		if tm.Armed {
+		if tm.Armed && !e.Cfg.ManualTimers {
+			if st.TotalFires >= e.Cfg.MaxTimerFires {
+				e.CutsTotal["cut:timer-fires"]++
+				continue // bound on the number of timer expirations per path
+			}
 			opts = append(opts, option{ti: -1, timer: i})
 		}
 	}
@@ -312,6 +316,12 @@ func (e *Engine) applyOption(s *State, op option, layer, idx int) {
 		th.Granted = true
 		th.Parked = false
 		th.Alt = op.alt
+		if th.VisDone == 0 {
+			th.VisDone = 1
+			if th.IsTimer {
+				s.FiresChecked++
+			}
+		}
 		s.VisSteps++
 		for i, o := range s.Threads {
 			if i != op.ti && o.HasSlept {
